@@ -128,7 +128,8 @@ func GetToken(input string, val *ValType, pos *int) int {
 	sb.WriteString("\nfunc vhShow(v *ValType) string {\n\t_ = strconv.Itoa\n\treturn " + show + "\n}\n")
 	call := "ParserInit()\n\tv := Parser(\"\")"
 	if v.Object {
-		call = "vhc := MakeParserContext()\n\tv := vhc.Parser(\"\")"
+		call = "var vhc *Context\n\tif os.Getenv(\"VH_REINIT\") == \"1\" {\n\t\tif vhShared == nil {\n\t\t\tvhShared = MakeParserContext()\n\t\t} else {\n\t\t\tvhShared.ParserInit()\n\t\t}\n\t\tvhc = vhShared\n\t} else {\n\t\tvhc = MakeParserContext()\n\t}\n\tv := vhc.Parser(\"\")"
+		sb.WriteString("\nvar vhShared *Context\n")
 	}
 	sb.WriteString(`
 func vhRunOne() {
